@@ -80,6 +80,21 @@ pub(crate) trait Selector<I: Interest, E: Event, S: EventIterator<E>> {
     /// if add failed.
     fn add_read_event(&self, fd: c_int, token: u64) -> std::io::Result<()> {
         if READABLE_RECORDS.contains(&fd) {
+            if READABLE_TOKEN_RECORDS
+                .get(&fd)
+                .is_some_and(|t| *t.value() == token)
+            {
+                return Ok(());
+            }
+            // another waiter than the registered one (or its event was already delivered):
+            // point the registration at this waiter, which also re-arms the edge
+            let interests = if WRITABLE_RECORDS.contains(&fd) {
+                I::read_and_write(token)
+            } else {
+                I::read(token)
+            };
+            self.reregister(fd, token, interests)?;
+            _ = READABLE_TOKEN_RECORDS.insert(fd, token);
             return Ok(());
         }
         if WRITABLE_RECORDS.contains(&fd) {
@@ -99,6 +114,20 @@ pub(crate) trait Selector<I: Interest, E: Event, S: EventIterator<E>> {
     /// if add failed.
     fn add_write_event(&self, fd: c_int, token: u64) -> std::io::Result<()> {
         if WRITABLE_RECORDS.contains(&fd) {
+            if WRITABLE_TOKEN_RECORDS
+                .get(&fd)
+                .is_some_and(|t| *t.value() == token)
+            {
+                return Ok(());
+            }
+            // another waiter than the registered one (or its event was already delivered)
+            let interests = if READABLE_RECORDS.contains(&fd) {
+                I::read_and_write(token)
+            } else {
+                I::write(token)
+            };
+            self.reregister(fd, token, interests)?;
+            _ = WRITABLE_TOKEN_RECORDS.insert(fd, token);
             return Ok(());
         }
         if READABLE_RECORDS.contains(&fd) {
